@@ -22,10 +22,10 @@ CHECKS = {
    "Held on generated sequences of compaction requests (increasing, repeated, older, zero, above current) interleaved with writes: the stored record never dropped below the highest accepted revision and every List/ListByStream below it was refused, on the compacting node and on a second node over the same store, including streams spanning several 300-kv batches (no data before the refusal); reads at/above it equal the reference snapshot.",
    "only compactions that returned without error raise the monitor's floor"),
  "C10": ("exploration", "generated inputs with round-trip/order oracles on the real coder, real memkv iteration and Backend.List", "5 C10",
-   "Held on generated keys/revisions/bounds over the documented alphabet: round trip, order preservation, index-first contiguity, exact enclosure of raw ranges and prefixes by the computed internal bounds.",
+   "Held on generated keys/revisions/bounds over the documented alphabet: round trip, order preservation, index-first contiguity, exact enclosure of raw ranges and prefixes by the computed internal bounds, also through Backend.List on engines that split the range into several partitions.",
    "alphabet = bytes > '$'; PrefixEnd's documented no-successor sentinel (empty / all-0xff prefix) is excluded as a bound"),
  "C12": ("exploration", "lock-step differential execution of one request script on all engines, transcript equality", "5 C12",
-   "Held on generated sequential scripts executed in lock-step on memkv, Badger, TiKV mock, their metrics-wrapped variants, a TiKV mock pre-split into regions and a multi-partition memkv: identical outcomes, revisions, range results, compaction answers and watch events.",
+   "Held on generated sequential scripts executed in lock-step on memkv, Badger, TiKV mock, their metrics-wrapped variants, a TiKV mock pre-split into regions and a multi-partition memkv, keys written with a ttl (Event records) included: identical outcomes, revisions, range results, compaction answers and watch events.",
    "error texts are not compared, only error vs response; TiKV is the in-process mock"),
  "C13": ("exploration", "controlled partitioning (GetPartitions override / pre-split mock regions) with differential comparison against the unpartitioned reference snapshot and stream-framing monitor", "5 C13",
    "Held on generated histories under generated partitionings (borders on index records, inside one key's versions, at never-stored keys, shuffled): List, Count, whole-interval stream, per-advertised-partition streams and the etcd range stream each contain every qualifying key once with the right version; batches name the read revision; one terminator, last; a cleanly terminated stream after a transient iterator error (partition retried) still carries each key once.",
@@ -46,19 +46,19 @@ CHECKS = {
    "No data race report with a kubebrain frame was produced while the concurrent workloads (writers, readers, watchers joining/leaving/overflowing, overflow with subscriber churn, catch-up from a small wrapping watch cache, compaction, async retry, lock candidates, follower taking over, leader/follower pair with the real revision syncer) ran under the race detector on memkv and Badger; counts of executions and report blocks in evidence.",
    "a race detector sees only executed interleavings; reports wholly inside the TiKV mock or the harness are listed, not counted"),
  "C14": ("exploration", "complete step-interleaving enumeration on memkv against a register model (lock-step) + porcupine linearizability check of recorded concurrent lock histories", "5 C14",
-   "All interleavings of 2 and of 3 candidates x 2 acquire rounds, and of 2 candidates retrying a rejected write without a fresh Get, were executed on memkv through the real resourcelock.Interface and agreed with a compare-and-swap register model step by step; sampled interleavings on Badger, the TiKV mock and locks obtained from real backends; recorded concurrent histories are linearizable as a CAS register (porcupine).",
+   "All interleavings of 2 and of 3 candidates x 2 acquire rounds, of 2 candidates retrying a rejected write without a fresh Get, and of 2-3 candidates ending with client-go's release (an Update naming no holder, without a fresh Get), were executed on memkv through the real resourcelock.Interface and agreed with a compare-and-swap register model step by step; sampled interleavings on Badger, the TiKV mock and locks obtained from real backends; recorded concurrent histories are linearizable as a CAS register (porcupine).",
    "lease timing not modelled (candidates always try); enumeration complete only at the stated bound on memkv"),
  "C15": ("exploration", "hand-over scenarios (fail-over and Badger restart) driven through the real lock, monitor comparing the new leader's revisions with an engine dump and the reference state", "5 C15",
-   "Held on generated old-leader histories with bursts of failed writes and lock renewals followed by a fail-over (all engines; in half of them to a node that served concurrent follower reads all along), a close+reopen (Badger), or a restart through the real Campaign / on-elected callback with requests over gRPC: the new leader's start and first revisions exceed every stored revision, guarded writes on existing keys succeed, earlier writes are listed.",
+   "Held on generated old-leader histories with bursts of failed writes and lock renewals followed by a fail-over (all engines; to nodes that stood by polling the lock, in half of them also serving concurrent follower reads all along; a third continuing with a second term and a second fail-over), a close+reopen (Badger), or a restart through the real Campaign / on-elected callback with requests over gRPC: the new leader's start and first revisions exceed every stored revision, guarded writes on existing keys succeed, earlier writes are listed.",
    "in 7 of 8 cases the election is driven in-process in client-go's call order and leader.go's on-elected action is applied by the harness; every 8th case uses the real Campaign loop"),
  "C16": ("exploration", "differential run of generated etcd request histories against an etcd-semantics reference model at the real etcd.RPCServer handlers, incl. a generated family of unsupported transactions with a state-unchanged monitor", "5 C16",
    "Held (apart from the recorded Count finding) on generated histories of the four Kubernetes transaction shapes with correct/stale/zero expectations, point/range/limited/old-revision reads, count-only, a prefix watch with prev_kv, 16 kinds of unsupported transactions which must be rejected and leave the store unchanged, and concurrent etcd clients whose failed compares never return the compared revision.",
    "handlers are called directly; EnableEtcdCompatibility on; the concurrent failure-branch rule is run on memkv/Badger only (the TiKV mock maps write conflicts to failed compares)"),
  "C17": ("exploration", "expiry monitor over an engine dump + reads + watch stream, with TTL shortened through the verif hook / the scanner's public config, ages measured on the monotonic clock", "5 C17",
-   "Held on generated histories mixing Event keys with look-alike keys on engines without native TTL (built-in compaction expiry, scanner driven directly and through a backend) and with native TTL (memkv, Badger), plus 1h-TTL controls: whatever lost records was an Event under <prefix>/events/, older than the TTL, removed wholly, creatable again, and no watch event was produced; also with a client update placed inside the expiry and with a storage error on the removal of an index record.",
+   "Held on generated histories mixing Event keys with look-alike keys on engines without native TTL (built-in compaction expiry, scanner driven directly and through a backend) and with native TTL (memkv, Badger), plus 1h-TTL controls: whatever lost records was an Event under <prefix>/events/, older than the TTL, removed wholly, creatable again, and no watch event was produced; also for events deleted and created again, with a client update placed inside the expiry and with a storage error on the removal of an index record.",
    "expiry is never demanded, only constrained; a key counts as younger than the TTL only if its newest write BEGAN less than TTL before the observation"),
  "C18": ("exploration", "call-recording backend + scripted peers under the real revision syncer (role matrix); two-node follower-read monitor with interleavings placed by the revision verif hooks", "5 C18",
-   "Held on the full role matrix (every request type of both APIs x leader/follower x proxy on/off x leader reachable/unreachable/400/500) (incl. a recorded leader that is a real node which is not leading, answered by pkg/server's real /status handler) and on two-node runs with concurrent follower reads while the leader writes, including the placed schedules 'reader delayed between fetch and set' and 'five readers setting different revisions at the same instant'.",
+   "Held on the full role matrix (every request type of both APIs, watches from the next revision and from revision 0, x leader/follower x proxy on/off x leader reachable/unreachable/400/500) (incl. a recorded leader that is a real node which is not leading, answered by pkg/server's real /status handler) and on two-node runs with concurrent follower reads while the leader writes, including the placed schedules 'reader delayed between fetch and set' and 'five readers setting different revisions at the same instant'.",
    "the etcd proxy and the election are stubs; the leader's status endpoint re-serves the logic of server.revisionHandler"),
  "C20": ("exploration", "generated hostile protobuf-round-tripped requests against a node wired with the real Prometheus client; panic/crash capture, metric label-set recorder, probe write + conservation monitor after every request", "5 C20",
    "Held on a burst of concurrent first requests and on generated hostile requests to both APIs (every 4th case over a real loopback gRPC connection with the production interceptors) with production metrics: every call returned, nothing panicked (in the handler or in background goroutines), no metric name was emitted with two label sets, and after every request a probe write became readable and watchable.",
